@@ -68,7 +68,7 @@ Proof.
   destruct (find ds x) as [[d1 px]|] eqn:F1; [|discriminate].
   destruct (find_nroots _ _ _ _ W Hx F1) as (N1 & W1 & L1 & R1 & E1).
   destruct (find d1 y) as [[d2 py]|] eqn:F2; [|discriminate].
-  destruct (find_nroots _ _ _ _ W1 ltac:(lia) F2) as (N2 & W2 & L2 & R2 & E2).
+  destruct (find_nroots d1 y d2 py W1 ltac:(lia) F2) as (N2 & W2 & L2 & R2 & E2).
   assert (Rx : reaches d2 x px) by (apply E2, E1; exact R1).
   assert (Ry : reaches d2 y py) by (apply E2; exact R2).
   assert (Ry0 : reaches ds y py) by (apply E1; exact R2).
@@ -113,7 +113,7 @@ Proof.
     destruct (find ds t) as [[d1 rt]|] eqn:F1; [|discriminate].
     destruct (find_nroots _ _ _ _ W Ht F1) as (N1 & W1 & L1 & R1 & E1).
     destruct (find d1 i) as [[d2 ri]|] eqn:F2; [|discriminate].
-    destruct (find_nroots _ _ _ _ W1 ltac:(lia) F2) as (N2 & W2 & L2 & R2 & E2).
+    destruct (find_nroots d1 i d2 ri W1 ltac:(lia) F2) as (N2 & W2 & L2 & R2 & E2).
     assert (His2 : forall j, In j is -> j < length d2) by (intros j Hj; rewrite L2, L1; apply His; right; exact Hj).
     assert (HG2 : forall j, j < length d2 -> nth j gam 0 < length d2) by (intros j Hj; rewrite L2, L1 in *; apply HG; exact Hj).
     destruct (rt =? ri) eqn:Er.
@@ -123,9 +123,9 @@ Proof.
       destruct (union_nroots d2 i t d3 W2 ltac:(lia) ltac:(lia) EU) as [U1 U2].
       destruct (union_WF d2 i t d3 W2 ltac:(lia) ltac:(lia) EU) as [W3 L3].
       assert (Hns : ~ same d2 i t).
-      { intros (r & Ha & Hb). assert (reaches d2 t rt) by (apply E2; exact R1).
-        pose proof (reaches_fun _ _ _ _ Hb H0). pose proof (reaches_fun _ _ _ _ Ha R2').
-        - subst. apply Er. reflexivity. }
+      { intros (r & Ha & Hb). assert (Ht2 : reaches d2 t rt) by (apply E2, E1; exact R1).
+        assert (Hi2 : reaches d2 i ri) by (apply E2; exact R2).
+        pose proof (reaches_fun _ _ _ _ Hb Ht2). pose proof (reaches_fun _ _ _ _ Ha Hi2). subst. apply Er. reflexivity. }
       specialize (U2 Hns).
       destruct (IH gam d3 true ds' b W3 ltac:(intros j Hj; rewrite L3; apply His2; exact Hj)
                   ltac:(intros j Hj; rewrite L3 in *; apply HG2; exact Hj) H) as (A & B & C & D).
